@@ -1,10 +1,196 @@
 import Driver.Util
-open Lean Driver
+import GinjaxVerif.Model.C16
+open Lean Driver GinjaxVerif.C16
 
+/-!
+Driver ops for C16.  Wire format: a key is `[k, parity]`; a multi image is a list (insertion
+order, keys distinct) of `[key, [frame, …]]`; a frame is the row-major list of its integer entries.
+
+The model function `f` of a rollout is taken from a parametric family the Python side implements
+as well (all arithmetic on integers mod `P`): output type `ko`, channel `ch`, is
+`(bias + scoef·s + Σ w · adapt(x[src][idx])) mod P` where `adapt` repeats (`k_src ≤ k_out`) or sums
+(`k_src > k_out`) the trailing tensor components; the next state is
+`(a·s + b + Σ w · sum(x[src][idx])) mod P`; `src` is a key, or with `bypos` a position in the
+input's key order; with `rot` the output dict is built rotated by `s mod #outs`.
+-/
 namespace Driver.C16
 
-def handle (op : String) (_j : Json) : R Json := do
+abbrev Key := Nat × Nat
+abbrev Frame := List Int
+
+def asKey (j : Json) : R Key := do
+  match j with
+  | .arr #[a, b] => pure (← asNat a, ← asNat b)
+  | _ => throw s!"bad key {j.compress}"
+
+def asFrame (j : Json) : R Frame := asList asInt j
+
+def asMI (j : Json) : R (MI Key Frame) := do
+  let items ← asList (fun it => do
+    match it with
+    | .arr #[k, fr] => pure (← asKey k, ← asList asFrame fr)
+    | _ => throw "bad multi image item") j
+  -- a Python dict cannot hold a key twice
+  if (items.map Prod.fst).eraseDups.length ≠ items.length then throw "duplicate key in multi image"
+  pure items
+
+def asConsts (j : Json) : R (List (Key × Nat)) :=
+  asList (fun it => do
+    match it with
+    | .arr #[k, n] => pure (← asKey k, ← asNat n)   -- negative size: the code's assert fails
+    | _ => throw "bad constants item") j
+
+def jKey (k : Key) : Json := Json.arr #[jNat k.1, jNat k.2]
+def jFrame (f : Frame) : Json := jList jInt f
+def jMI (x : MI Key Frame) : Json := jList (fun kb => Json.arr #[jKey kb.1, jList jFrame kb.2]) x
+
+/-! ### the parametric model family -/
+
+structure Term where
+  srcKey : Option Key
+  srcPos : Option Nat
+  idx : Nat
+  w : Int
+
+structure Chan where
+  bias : Int
+  scoef : Int
+  terms : List Term
+
+structure Out where
+  key : Key
+  size : Nat
+  chans : List Chan
+
+structure Fam where
+  P : Int
+  D : Nat
+  rot : Bool
+  outs : List Out
+  sa : Int
+  sb : Int
+  sterms : List Term
+
+def asTerm (j : Json) : R Term := do
+  let idx ← natF j "idx"
+  let w ← intF j "w"
+  let src ← field j "src"
+  match src with
+  | .arr _ => pure { srcKey := some (← asKey src), srcPos := none, idx, w }
+  | _ => pure { srcKey := none, srcPos := some (← asNat src), idx, w }
+
+def asFam (j : Json) : R Fam := do
+  let P ← intF j "P"
+  if P ≤ 0 then throw "bad modulus"
+  let D ← natF j "D"
+  let rot ← boolF j "rot"
+  let outs ← listF (fun o => do
+    let key ← field o "key" >>= asKey
+    let size ← natF o "size"
+    let chans ← listF (fun c => do
+      pure { bias := ← intF c "bias", scoef := ← intF c "scoef", terms := ← listF asTerm c "terms" : Chan })
+      o "channels"
+    pure { key, size, chans : Out }) j "outs"
+  let st ← field j "state"
+  pure { P, D, rot, outs, sa := ← intF st "a", sb := ← intF st "b", sterms := ← listF asTerm st "terms" }
+
+/-- the frame a term refers to, with the tensor order of its type; `none` when absent -/
+def termFrame (x : MI Key Frame) (t : Term) : Option (Nat × Frame) :=
+  let kb : Option (Key × List Frame) :=
+    match t.srcKey, t.srcPos with
+    | some k, _ => (x.lookup k).map (k, ·)
+    | none, some p => x[p]?
+    | none, none => none
+  kb.bind fun kb => (kb.2[t.idx]?).map (kb.1.1, ·)
+
+def groupSums (g : Nat) (f : Frame) : Frame :=
+  if g = 0 then [] else
+  (List.range (f.length / g)).map fun i => ((f.drop (i * g)).take g).foldl (· + ·) 0
+
+/-- bring a frame of tensor order `ks` to order `kt` (trailing components repeated or summed) -/
+def adapt (D ks kt : Nat) (f : Frame) : Frame :=
+  if ks ≤ kt then f.flatMap (fun v => List.replicate (D ^ (kt - ks)) v)
+  else groupSums (D ^ (ks - kt)) f
+
+def addFrames (a b : Frame) : Frame := List.zipWith (· + ·) a b
+
+/-- one member of the family, as a total function; ill-formed references make the whole call fail
+(`none`), which the op reports as a harness error, not as a rejection -/
+def famApply (m : Fam) (x : MI Key Frame) (s : Int) : Option (MI Key Frame × Int) := do
+  let outs ← m.outs.mapM fun o => do
+    let chans ← o.chans.mapM fun c => do
+      let base : Frame := List.replicate o.size (c.bias + c.scoef * s)
+      let tot ← c.terms.foldlM (fun acc t => do
+        let (ks, fr) ← termFrame x t
+        let a := adapt m.D ks o.key.1 fr
+        if a.length ≠ o.size then none else
+        pure (addFrames acc (a.map (t.w * ·)))) base
+      pure (tot.map (· % m.P))
+    pure (o.key, chans)
+  let ssum ← m.sterms.foldlM (fun acc t => do
+    let (_, fr) ← termFrame x t
+    pure (acc + t.w * fr.foldl (· + ·) 0)) (m.sa * s + m.sb)
+  let r := if m.rot ∧ outs.length > 0 then (s % (outs.length : Int)).toNat else 0
+  pure (outs.drop r ++ outs.take r, ssum % m.P)
+
+/-- total version handed to the Lean model; a failed family evaluation is recorded in the state -/
+def famTotal (m : Fam) (x : MI Key Frame) (s : Option Int) : MI Key Frame × Option Int :=
+  match s with
+  | none => ([], none)
+  | some s =>
+    match famApply m x s with
+    | none => ([], none)
+    | some (p, s') => (p, some s')
+
+/-- does the family evaluate along the model's own trajectory (until it finishes or rejects)? -/
+def famCheck (m : Fam) (past : Nat) (consts : List (Key × Nat)) : Nat → MI Key Frame → Int → Bool
+  | 0, _, _ => true
+  | n + 1, x, s =>
+    match famApply m x s with
+    | none => false
+    | some (p, s') =>
+      match autoregressiveStep past consts x p with
+      | none => true
+      | some x' => famCheck m past consts n x' s'
+
+def handle (op : String) (j : Json) : R Json := do
   match op with
+  | "c16.step" | "c16.step_spec" =>
+    let past ← natF j "past"
+    let consts ← field j "consts" >>= asConsts
+    let input ← field j "input" >>= asMI
+    let output ← field j "output" >>= asMI
+    if op == "c16.step" then
+      let future ← natF j "future"
+      match autoregressiveStep past consts input output future with
+      | none => throw "rejected"
+      | some y => pure (jMI y)
+    else
+      pure (jMI (specStep past consts input output))
+  | "c16.map" | "c16.map_spec" =>
+    let past ← natF j "past"
+    let consts ← field j "consts" >>= asConsts
+    let x ← field j "x" >>= asMI
+    let s ← intF j "s"
+    let n ← natF j "n"
+    let fam ← field j "model" >>= asFam
+    let f := famTotal fam
+    -- the inputs of the explicit iteration (diagnostics, and the check that the family evaluated)
+    let its := (List.range (n + 1)).map fun t => iterate f past consts x (some s) t
+    if op == "c16.map" then
+      if !famCheck fam past consts n x s then throw "harness: model family ill-formed"
+      match autoregressiveMap f past consts x (some s) n with
+      | none => throw "rejected"
+      | some (_, none) => throw "harness: model family ill-formed"
+      | some (out, some s') => pure (Json.mkObj [("out", jMI out), ("state", jInt s')])
+    else
+      match (its.getLast?).bind (·.2) with
+      | none => throw "harness: model family ill-formed"
+      | some s' =>
+        pure (Json.mkObj [
+          ("out", jMI (specRollout (predAt f past consts x (some s)) n)),
+          ("state", jInt s'),
+          ("inputs", jList (fun xs => jMI xs.1) its)])
   | _ => throw s!"unknown op {op}"
 
 end Driver.C16
